@@ -43,7 +43,7 @@ type c15Case struct {
 const c15Shards = 16
 
 func c15PerShard(tier string) int {
-	return Scale(map[string]int{"quick": 5000, "thorough": 250000}[tier])
+	return Scale(map[string]int{"quick": 20000, "thorough": 500000}[tier])
 }
 
 var c15Docs = []string{
